@@ -241,6 +241,8 @@ type HandlerScript struct {
 	InlineError bool
 	// WithDeadline runs the attempt under a context that also carries a (far) deadline
 	WithDeadline bool
+	// ErrValue, when set, is what the handler returns at ErrAt (default ErrHandler)
+	ErrValue error
 	// DeadlineIn > 0 runs the attempt under a context whose deadline is that near
 	DeadlineIn time.Duration
 	OnCall     func(n int, tx *gobinlog.Transaction, d *Delivered) // extra monitor (C08)
@@ -464,6 +466,9 @@ func (s *Session) Start(hs HandlerScript, xo *xport.Options) *Running {
 		}
 		if n == hs.ErrAt {
 			err = ErrHandler
+			if hs.ErrValue != nil {
+				err = hs.ErrValue
+			}
 		}
 		d.Accepted = err == nil
 		d.ExitSeq = s.Tr.Add("handler-exit", int64(att), int64(n), "")
